@@ -4,7 +4,7 @@
     (C12): join with silence / one file per detection (C17_join, C17_silence). *)
 From Coq Require Import ZArith List Bool.
 From AV Require Import Base.PyList Tok.Model Conc.Workers Audio.Region.
-From AV Require Conc.WorkersSafety Audio.RegionProofs.
+From AV Require Conc.WorkersSafety Audio.RegionProofs Conc.Savers.
 Import ListNotations.
 Open Scope Z_scope.
 
@@ -39,6 +39,28 @@ Theorem C13_join_bytes : forall B (sep : region B) others, RegionProofs.wf sep -
   join sep others = Ok (mkRegion (intercalate (rdata sep) (map rdata others)) (rate sep) (width sep) (nch sep)).
 Proof. exact RegionProofs.C17_join. Qed.
 
+(** the writer's methods (tied to workers.py by translation, TieSavers.v): the model's step on a data message is
+    _process_message; whatever the cache size, a run of blocks followed by the final flush leaves exactly the blocks in the file *)
+Theorem C13_writer_step_is_method : forall (A : Type) (bsz : A -> Z) (cache_size : Z) (v : saver A) b more,
+  spcv v = SRun -> sinbox v = SData b :: more ->
+  exists v', step_sav_one bsz cache_size v false = Some v' /\ sinbox v' = more /\ spcv v' = SRun
+             /\ Savers.of_saver v' = let s := Savers.w_process bsz cache_size (Savers.of_saver v) b in
+                                     Savers.mkW (Savers.wcache s) (Savers.wtotal s) (Savers.wfile s) false.
+Proof. exact (@Savers.step_sav_data_is_w_process). Qed.
+
+Theorem C13_writer_run : forall (A : Type) (bsz : A -> Z) (cache_size : Z) (ds : list A) (s : Savers.wstate A),
+  let s' := Savers.w_flush (fold_left (Savers.w_process bsz cache_size) ds s) in
+  Savers.wfile s' = Savers.wfile s ++ Savers.wcache s ++ ds /\ Savers.wcache s' = [].
+Proof. exact (@Savers.w_run_content). Qed.
+
+(** the joiner's method, event after event: the file is join(silence, events) - nothing before the first, nothing after the last *)
+Theorem C13_joiner_file : forall B (sil : list B) (events : list (list B)),
+  concat (snd (fold_left (Savers.j_write sil) events (true, []))) = intercalate sil events.
+Proof. exact (@Savers.joiner_file_is_join). Qed.
+
 Print Assumptions C13_saver_inv.
 Print Assumptions C13_saver_final.
 Print Assumptions C13_join_bytes.
+Print Assumptions C13_writer_step_is_method.
+Print Assumptions C13_writer_run.
+Print Assumptions C13_joiner_file.
